@@ -280,6 +280,12 @@ func (i *dbIter) prev() bool {
 		i.iterErr()
 		return false
 	}
+	// The underlying iterator may have stopped on an error before the newest
+	// entry of this key was reached.
+	if err := i.iter.Error(); err != nil {
+		i.setErr(err)
+		return false
+	}
 	return true
 }
 
